@@ -20,6 +20,7 @@ use crate::rpcgen::{well_typed, Fixture};
 pub struct C09;
 
 sol! {
+    #![sol(all_derives)]
     function getLockedPkscript(bytes pkscript, uint256 lock_block_count) returns (bytes locked_pkscript);
     function verify(bytes pkscript, bytes message, bytes signature) returns (bool success);
     function getTxDetails(bytes32 txid);
